@@ -85,10 +85,20 @@ func GetExtendedSpatialIdsWithinRadiusOfLine(startPoint *object.Point, endPoint 
 	// create megaboxIds
 
 	// Determine the number of layers around the spatialID to search.
-	// All SpatialIds are virtually the same size, so use the first to measure
-	hLayers, vLayers, error := FitClearanceAroundExtendedSpatialID(idsOnLine[0], radius)
-	if error != nil {
-		return nil, error
+	// The SpatialIds of a line differ in size (their width shrinks towards the poles) and
+	// idsOnLine has no defined order, so use the largest layer counts any of them needs.
+	var hLayers, vLayers int64
+	for _, idOnLine := range idsOnLine {
+		h, v, error := FitClearanceAroundExtendedSpatialID(idOnLine, radius)
+		if error != nil {
+			return nil, error
+		}
+		if h > hLayers {
+			hLayers = h
+		}
+		if v > vLayers {
+			vLayers = v
+		}
 	}
 
 	// Return the SpatialIDs within the box created by hLayers and vLayers
